@@ -48,6 +48,12 @@ fn family(name: &str, n: usize) -> String {
         "nested-parens-continued" => format!("{}1{}", "(".repeat(n), "+1)".repeat(n)),
         "nested-path-parens" => format!("{}/r{}", "(".repeat(n), "/a)".repeat(n)),
         "nested-predicate-parens" => format!("{}//a{}", "(".repeat(n), "[1])".repeat(n)),
+        // '//' steps on elements nested in elements of the same name (document: a chain of 2n <a>, see nesting_doc):
+        // the descendant sets of nested context nodes overlap, so duplicates must go after every step
+        "descendant-steps-on-nesting" => "//a".repeat(n),
+        "descendant-star-steps-on-nesting" => format!("/r{}", "//*".repeat(n)),
+        "descendant-steps-in-count-on-nesting" => format!("count(/r{}/@id)", "//a".repeat(n)),
+        "descendant-steps-in-predicate-on-nesting" => format!("//a[.{}]", "//a".repeat(n)),
         "minus-run" => format!("{}1", "-".repeat(n)),
         "parent-run" => (0..n).map(|_| "..".to_string()).collect::<Vec<_>>().join("/"),
         "unclosed-parens" => "(".repeat(n),
@@ -76,6 +82,10 @@ const FAMILIES: &[(&str, &[usize])] = &[
     ("nested-parens-continued", &[2, 8, 14, 20, 26, 40]),
     ("nested-path-parens", &[2, 8, 14, 20, 26, 40]),
     ("nested-predicate-parens", &[2, 8, 14, 20, 26, 40]),
+    ("descendant-steps-on-nesting", &[2, 4, 8, 12, 14, 16]),
+    ("descendant-star-steps-on-nesting", &[2, 4, 8, 12, 16, 20]),
+    ("descendant-steps-in-count-on-nesting", &[2, 4, 8, 12, 16, 20]),
+    ("descendant-steps-in-predicate-on-nesting", &[2, 4, 8, 12, 16]),
     ("minus-run", &[10, 1000, 100000]),
     ("parent-run", &[10, 1000]),
     ("unclosed-parens", &[10, 1000, 100000]),
@@ -83,6 +93,18 @@ const FAMILIES: &[(&str, &[usize])] = &[
     ("huge-number", &[10, 400, 10000]),
     ("concat-args", &[10, 5000]),
 ];
+
+/// 2n elements <a id=".."> nested in each other, with a leaf at the bottom
+fn nesting_doc(n: usize) -> String {
+    let mut s = String::from("<r>");
+    for i in 0..(2 * n) {
+        s.push_str(&format!("<a id=\"{}\">", i));
+    }
+    s.push_str("<b/>t");
+    s.push_str(&"</a>".repeat(2 * n));
+    s.push_str("</r>");
+    s
+}
 
 pub enum Out {
     Value(xml_xpath::eval::model::Value),
@@ -114,7 +136,7 @@ impl Property for C06 {
         "expression strings x a pool of accepted documents and generated documents (PIs, namespaces, DTD-defaulted and #REQUIRED attributes, unparsed entities, CDATA and references, a doubling entity chain): \
          (a) token soup over the XPath alphabet incl. variable references, id(), processing-instruction('t'), unknown functions, axis names, odd numbers, unbalanced quotes and brackets; \
          (b) spellings of generated ASTs with 12% deliberately erroneous sub-expressions (variables, unknown functions, wrong arity, wrong argument types); (c) character-level mutants \
-         of valid spellings; (d) sized families: nested parentheses (plain and continued at every level) / function calls / predicates / filter predicates, operand and union chains, long paths, fan-out-and-return step chains (child/parent, descendant-or-self, siblings, ancestor/descendant), runs of '-' and '..', \
+         of valid spellings; (d) sized families: nested parentheses (plain and continued at every level) / function calls / predicates / filter predicates, operand and union chains, long paths, fan-out-and-return step chains (child/parent, descendant-or-self, siblings, ancestor/descendant), chains of '//' steps on a document of 2n elements nested in each other, runs of '-' and '..', \
          unclosed brackets, huge numbers, many arguments. Oracle: in a worker process xml_xpath::query and the formatting of its result must return: a panic is caught and keyed by its \
          site, a worker death or an exhausted CPU budget (8 s) is attributed to the announced case; in addition '$v' must be an error, id() an error or an empty node-set, and '/..' \
          an error or an empty node-set. Non-trivial = the expression parsed and evaluation ran (a value or an evaluation error), or the case is a family member; distinct by (document, expression)."
@@ -213,7 +235,11 @@ impl Property for C06 {
             Some(f) => family(f, case["n"].as_u64().unwrap_or(1) as usize),
             None => case["expr"].as_str().unwrap_or("").to_string(),
         };
-        let doc_text = case["doc_text"].as_str().unwrap_or(DOCS[di]);
+        let nested = match case["family"].as_str() {
+            Some(f) if f.ends_with("-on-nesting") => Some(nesting_doc(case["n"].as_u64().unwrap_or(1) as usize)),
+            _ => None,
+        };
+        let doc_text = nested.as_deref().unwrap_or_else(|| case["doc_text"].as_str().unwrap_or(DOCS[di]));
         let doc = match xml_dom::XmlDocument::from_raw_with_context(doc_text, xml_dom::Context::from_text_expanded(true)) {
             Ok((rest, d)) if rest.is_empty() => d,
             _ => return Verdict::Discard("document-rejected".into()),
